@@ -21,6 +21,11 @@ def scenarios(ctx, thorough):
     for h in hists[: (300 if thorough else 40)]:
         sid += 1
         scs.append(S.mk(sid, "tlc-order", "dispatch", S.project(h, rng, S.ALL_KINDS), gates=["send.genid"], fresh=(sid % 9 == 0)))
+    # behaviours of the model with vector results (hints), gzip-packed answers and an item nobody waits for
+    hists = S.tlc_schedules(ctx, "ClientGenHints.cfg", 400 if thorough else 60)
+    for h in hists[: (250 if thorough else 30)]:
+        sid += 1
+        scs.append(S.mk(sid, "tlc-hints", "dispatch", S.project(h, rng, S.ALL_KINDS), gates=["send.genid"]))
     # the answer arrives while the caller is still inside the send section
     for kind in S.ALL_KINDS:
         for gz in (False, True):
@@ -50,12 +55,17 @@ def run(ctx):
     thorough = ctx.tier == "thorough"
     mc = model_check(ctx, thorough)
     C.run_tlc(ctx, "Client", "ClientDevGenIdOutsideLock.cfg", workers=4, expect_violation=True, timeout=300, tag="sensitivity:GenIdOutsideLock")
+    mh = C.run_tlc(ctx, "Client", "ClientHints.cfg", workers=C.NCPU, timeout=1800, tag="ClientHints.cfg")
+    for d in ("HintKeyedByServerId", "NoHintInsideGzip"):
+        C.run_tlc(ctx, "Client", "ClientDev%s.cfg" % d, workers=4, expect_violation=True, timeout=300, tag="sensitivity:" + d)
     scs = scenarios(ctx, thorough)
     st = S.judge(ctx, scs, S.K_RESULT | S.K_LIVE, "dispatch")
     C.write_evidence(ctx, "model_checking", {
-        "states": mc.distinct, "transitions": mc.generated, "traces_validated_against_impl": st["scenarios"],
+        "states": mc.distinct + mh.distinct, "transitions": mc.generated + mh.generated, "traces_validated_against_impl": st["scenarios"],
         "evaluations": st["events"], "distinct_nontrivial": st["scenarios"],
-        "rule": "Client.tla: 2 callers (3 in thorough), salt rotations, any server grouping - OwnResult, no stall, liveness; schedules from "
+        "rule": "Client.tla: 2 callers (3 in thorough), salt rotations, any server grouping - OwnResult, no stall, liveness; ClientHints.cfg: "
+                "object and vector results, gzip-packed or not - TypedVector, LoopAlive (hints looked up under the server's id, or not "
+                "reaching gzip, must each kill the loop); behaviours of that model (kinds, gzip, junk items) and schedules from "
                 "tlc -simulate of the same module (caller start / release at the send gate / answers with grouping) replayed with real "
                 "goroutines held at hook gates, result kinds object/Bool/Vector<int>/Vector<object>/rpc_error, gzip subsets; plus "
                 "seeded 8-goroutine runs; every recorded event judged by TLC (ClientTrace); one scenario = one trace",
